@@ -223,7 +223,7 @@ Definition glue_C03 (k : string) (a o : list value) : option verdict :=
     end
   else if is k "c03.kstamps" then
     (* what a worker process reports about its run:
-       args = attempts fallback_tx fallback_rx histories dropped port_pairs same_ports
+       args = attempts fallback_tx fallback_rx histories dropped port_pairs same_ports n4 f4 n6 f6 ns fs
        - the client combines kernel timestamps: the clock fallback is the exception
          (the exchanges concerned are judged by the relaxed clause of the oracle);
          a client that uses it for half of its exchanges violates the bound as a rule;
@@ -232,9 +232,12 @@ Definition glue_C03 (k : string) (a o : list value) : option verdict :=
          ports by chance: about 1 in 10^4; at most 5 % tolerated);
        - the harness recorded (almost) every history it scripted *)
     match a with
-    | [VZ n; VZ fbtx; VZ fbrx; VZ hist; VZ dropped; VZ pairs; VZ same] =>
+    | [VZ n; VZ fbtx; VZ fbrx; VZ hist; VZ dropped; VZ pairs; VZ same; VZ n4; VZ f4; VZ n6; VZ f6; VZ ns; VZ fs] =>
+        (* n4 f4 n6 f6 ns fs: attempts and transmit-stamp fallbacks per family (IPv4, IPv6,
+           SCION) outside the calls that ask for the fallback: at most half in each *)
         Some (relational (dropped * 20 <=? hist + 20)
-                ((fbtx * 2 <=? n) && (fbrx * 2 <=? n) && (same * 20 <=? pairs + 20)))
+                ((fbtx * 2 <=? n) && (fbrx * 2 <=? n) && (same * 20 <=? pairs + 20) &&
+                 (f4 * 2 <=? n4) && (f6 * 2 <=? n6) && (fs * 2 <=? ns)))
     | _ => None
     end
   else None.
